@@ -19,7 +19,9 @@ RULE = (
     "the line of the macro call). Covers forms nested in statement-lifted constructs, function bodies, lambdas, both comprehension "
     "strategies, try/with/loops, at module level and inside a function. Also enumerated: (op= x a b) for every augmented "
     "operator, where combining a and b raises (the synthesized aggregation form), after 0/1/4 lines, plain / in when / in defn / in let, "
-    "on one line or three: the reported line must lie within the form. Non-trivial = the raising form is nested >= 2 levels below a "
+    "on one line or three: the reported line must lie within the form. Likewise enumerated: destructuring targets (let, setv, for, "
+    "lfor, with; list, tuple, starred; first or later binding) whose value evaluates but cannot be unpacked (too short, too long, not iterable). "
+    "Variant py-twice: the raising form is inline Python (py \"BOOM()\") placed at two positions of which exactly one is evaluated. Non-trivial = the raising form is nested >= 2 levels below a "
     "statement-producing construct or inside a function/comprehension; distinct by (source)"
 )
 ASSUMPTIONS = ["reference interpreter decides reachability; only cases where it says the BOOM exception escapes are judged"]
@@ -163,9 +165,64 @@ def check_aug(case):
     return ("augmented-assignment-did-not-raise", dict(source=src))
 
 
+UNPACK_SITES = {
+    "let-list": "(let [%s[a b] %s%s]%s a)", "let-tuple": "(let [%s#(a b) %s%s]%s a)", "let-star": "(let [%s[a b #* r] %s%s]%s a)",
+    "let-second": "(let [q 1 %s[a b] %s%s]%s a)", "setv-list": "(setv %s[a b] %s%s%s)", "setv-star": "(setv %s#(a b #* r) %s%s%s)",
+    "for": "(for [%s[a b] %s[%s]]%s a)", "lfor": "(lfor %s[a b] %s[%s]%s a)", "with-as": "(with [%s[a b] %s(CM %s)]%s a)",
+}
+UNPACK_VALUES = {"short": ("[1]", ValueError), "long": ("[1 2 3]", ValueError), "not-iterable": ("5", TypeError)}
+
+
+def check_unpack(case):
+    """a destructuring target (let / setv / for / lfor / with) whose value evaluates fine but cannot be unpacked: the innermost
+    frame of the program's file must name a line of that form"""
+    import types
+
+    import hy
+    import hy.compiler
+
+    site, val, pad, wrap, layout = case["site"], case["value"], int(case["pad"]), case["wrap"], case["layout"]
+    if site not in UNPACK_SITES or val not in UNPACK_VALUES or not 0 <= pad <= 8 or wrap not in ("none", "when", "defn", "let") or layout not in ("one-line", "multi-line"):
+        return None
+    vtext, etype = UNPACK_VALUES[val]
+    if site.endswith("star") and val == "long":
+        return None  # a starred target takes any longer value
+    nl = "\n    " if layout == "multi-line" else ""
+    form = UNPACK_SITES[site] % (nl, nl, vtext, nl)
+    lines = ["(setv pad%d %d)" % (i, i) for i in range(pad)]
+    lines.append("(defclass CM [] (defn __init__ [self v] (setv self.v v)) (defn __enter__ [self] self.v) (defn __exit__ [self #* a] False))")
+    if wrap == "when":
+        body = "(when True\n  %s)" % form
+    elif wrap == "defn":
+        body = "(defn f []\n  %s)\n(f)" % form
+    elif wrap == "let":
+        body = "(let [q2 1]\n  %s)" % form
+    else:
+        body = form
+    src = "\n".join(lines) + "\n" + body + "\n"
+    at = src.index(form)
+    start = 1 + src[:at].count("\n")
+    end = start + form.count("\n")
+    mod = types.ModuleType("vfprog17u")
+    tree = hy.compiler.hy_compile(hy.read_many(src), mod, filename="<vfprog17u>", source=src)
+    try:
+        exec(compile(tree, "<vfprog17u>", "exec"), mod.__dict__)
+    except etype as e:
+        frames = [f for f in traceback.extract_tb(e.__traceback__) if f.filename == "<vfprog17u>"]
+        if not frames:
+            return ("no-frame-in-program-file", dict(source=src))
+        got = frames[-1].lineno
+        if not (start <= got <= end):
+            return ("wrong-line:destructuring-target:" + site.split("-")[0], dict(source=src, expected_lines=[start, end], reported_line=got))
+        return None
+    return ("destructuring-did-not-raise", dict(source=src))
+
+
 def check_case(case):
     if case.get("kind") == "aug":
         return check_aug(case)
+    if case.get("kind") == "unpack":
+        return check_unpack(case)
     prog = case["prog"]
     mode = case.get("mode", "module")
     if '"boom"' not in json.dumps(prog):
@@ -180,13 +237,13 @@ def check_case(case):
         c = P.Compiled(prog, mode, name=NAME, multiline=True, prelude=PRELUDE)
     except SyntaxError:
         return None
-    text = {"plain": "(BOOM)", "macro-arg": "(wrap (BOOM))", "macro-template": "(mboom)", "shared-atom": "(mshared)"}
+    text = {"plain": "(BOOM)", "macro-arg": "(wrap (BOOM))", "macro-template": "(mboom)", "shared-atom": "(mshared)", "py-twice": '(py "BOOM()")'}
     variant = next(v for v in text if '["boom", "%s"]' % v in json.dumps(prog))
     idx = c.src.find(text[variant], len(PRELUDE))
     if idx < 0:
         return None
     idx2 = c.src.find(text[variant], idx + 1)
-    if variant == "shared-atom" and idx2 >= 0:
+    if variant in ("shared-atom", "py-twice") and idx2 >= 0:
         # two expansion sites of the macro that splices the shared atom: exactly one of them is reached
         if c.src.find(text[variant], idx2 + 1) >= 0:
             return None
@@ -236,13 +293,13 @@ def shard(ctx):
     from hypothesis import strategies as st
 
     strat = st.tuples(G.program(budget=30 if ctx.quick else 50, depth=4), st.sampled_from(["module", "function"]),
-                      st.sampled_from(["plain", "plain", "macro-arg", "macro-template", "shared-atom", "shared-atom"]))
+                      st.sampled_from(["plain", "plain", "macro-arg", "macro-template", "shared-atom", "shared-atom", "py-twice"]))
 
     def one(t):
         prog, mode, variant = t
         seen = set()
         paths = list(leaf_paths(prog))
-        if variant == "shared-atom":
+        if variant in ("shared-atom", "py-twice"):
             # pairs of sites: an earlier (in source order) expansion that is never evaluated, and a later one that raises -
             # and the other way round; single sites as well
             try:
@@ -261,6 +318,9 @@ def shard(ctx):
             # line on a shared atom
             first = [(d, l) for l in live for d in dead if d < l]
             pairs = first[:: max(1, len(first) // 10)][:10] + [(d, l) for d in dead[:2] for l in live[:2] if d > l][:2]
+            if variant == "py-twice":  # identical inline-Python text at two sites: here the later, unreached one matters as much
+                last = [(d, l) for l in live for d in dead if d > l]
+                pairs = last[:: max(1, len(last) // 6)][:6] + first[:: max(1, len(first) // 4)][:4]
             for d, l in pairs:
                 if ctx.out_of_time():
                     return
@@ -271,7 +331,7 @@ def shard(ctx):
                 except Exception:
                     continue
                 src = P.wrap_source(p2, mode, True)
-                ctx.case(key=src, nontrivial=True, cls=["variant:shared-atom", "two-expansion-sites:" + ("unreached-one-first" if d < l else "unreached-one-last")], sample=src)
+                ctx.case(key=src, nontrivial=True, cls=["variant:" + variant, "two-expansion-sites:" + ("unreached-one-first" if d < l else "unreached-one-last")], sample=src)
                 r = check_case(dict(prog=p2, mode=mode))
                 if r is not None and r[0] not in seen:
                     seen.add(r[0])
@@ -295,6 +355,7 @@ def shard(ctx):
                 seen.add(r[0])
                 ctx.fail(dict(prog=p2, mode=mode), r[0], r[1])
 
+    _unpack_leg(ctx)  # enumerated and cheap: before the sampled programs, which may use up the time budget
     ctx.hyp(strat, one, ctx.per_shard(110, 20000), "programs")
 
     # augmented assignment with several values: the failure happens in the synthesized aggregation (enumerated, striped over shards)
@@ -311,6 +372,24 @@ def shard(ctx):
                     r = check_case(case)
                     if r is not None:
                         ctx.fail(case, r[0], r[1])
+
+
+def _unpack_leg(ctx):
+    i = 0
+    for site in sorted(UNPACK_SITES):
+        for val in sorted(UNPACK_VALUES):
+            for pad in (0, 3):
+                for wrap in ("none", "when", "defn", "let"):
+                    for layout in ("one-line", "multi-line"):
+                        i += 1
+                        if i % ctx.n != ctx.k or (site.endswith("star") and val == "long"):
+                            continue
+                        case = dict(kind="unpack", site=site, value=val, pad=pad, wrap=wrap, layout=layout)
+                        ctx.case(key=json.dumps(case, sort_keys=True), nontrivial=True, cls=["variant:destructuring-target", "unpack:" + site],
+                                 sample="%s <- %s after %d lines in %s, %s" % (site, UNPACK_VALUES[val][0], pad, wrap, layout))
+                        r = check_case(case)
+                        if r is not None:
+                            ctx.fail(case, r[0], r[1])
 
 
 def shrink(case, same, budget):
